@@ -6,6 +6,7 @@ mod model;
 mod p_kmer;
 mod p_minfile;
 mod p_min;
+mod p_py;
 mod p_cli;
 mod p_count;
 mod p_covfile;
@@ -152,7 +153,6 @@ fn main() {
         println!("{}", p_tables::dump());
         return;
     }
-    let _ = &pymod;
     let model = Model::new(&model_path);
     let corpus_lines: Vec<String> = if !replay.is_empty() {
         let text = std::fs::read_to_string(&replay).unwrap_or_default();
@@ -201,6 +201,7 @@ fn main() {
         "C14" => p_file::run_files("C14", eff_tier, seed, &model, corpus_lines, &work),
         "C07" => p_count::run_c07(eff_tier, seed, &model, corpus_lines, &work),
         "C10" => p_minfile::run_c10(eff_tier, seed, &model, corpus_lines, &work),
+        "C13" => p_py::run_c13(eff_tier, seed, &model, corpus_lines, &pymod, &work),
         "C15" => p_cli::run_c15(eff_tier, seed, &model, corpus_lines, &cli_bin, &work),
         "C16" => p_cli::run_c16(eff_tier, seed, &model, corpus_lines, &cli_bin, &work),
         "C17" => p_cli::run_c17(eff_tier, seed, &model, corpus_lines, &cli_bin, &work),
